@@ -86,7 +86,7 @@ def main():
                         want.add("./" + parts[0][len(mod):] if parts[0].startswith(mod) else parts[0])
                 sel = " ".join(sorted(want))
             t = time.time()
-            rc, out = sh("python3 %s/engine/baseline.py %s" % (VERIF, sel), env=dict(ENV, VERIF_REPO=wt1), timeout=5400)
+            rc, out = sh("python3 %s/engine/baseline.py %s" % (VERIF, sel), env=dict(ENV, VERIF_REPO=wt1, VERIF_TEST_TIMEOUT="150m"), timeout=4 * 3600)
             meta["suite_passes"] = rc == 0
             meta["ran"].append({"cmd": "baseline.py " + sel, "rc": rc, "out": out[-1500:], "wall_s": round(time.time() - t)})
             print("pinned suite (%s) rc=%d: %s" % (sel, rc, out.strip().split("\n")[0] if out.strip() else ""))
